@@ -8,6 +8,7 @@ import CnvVerif.Generated.EffectsConsts
 open Lean
 namespace CnvVerif.Drv
 open CnvVerif.Effects
+namespace Eff
 
 /-! ### JSON -/
 
@@ -102,11 +103,14 @@ def ensurePathSpec (pre : FS) (p : String) (ws : List String) (post : FS) : List
 
 def gatherF (x : Int) : Int := x * x + 1
 
-/-! ### handler -/
-
-def optIntJ' : Option Int → Json
+def optIntJ : Option Int → Json
   | some i => intJ i
   | none => Json.null
+
+end Eff
+open Eff
+
+/-! ### handler -/
 
 def handleEffects (op : String) (inp : Json) (impl : Option Json) : R (Option Json) := do
   match op with
@@ -161,8 +165,8 @@ def handleEffects (op : String) (inp : Json) (impl : Option Json) : R (Option Js
       | some ij => do
         let res ← getList getInt (← fld ij "res")
         pure (arrJ ((if res == xs.map gatherF then [] else ["results_in_submission_order"]).map strJ)))
-    pure (some (obj [("out", obj [("res", arrJ (out.map optIntJ')),
-                                  ("unordered", arrJ ((asCompleted gatherF xs order).map optIntJ'))]), ("spec", spec)]))
+    pure (some (obj [("out", obj [("res", arrJ (out.map Eff.optIntJ)),
+                                  ("unordered", arrJ ((asCompleted gatherF xs order).map Eff.optIntJ))]), ("spec", spec)]))
   | _ => pure none
 
 end CnvVerif.Drv
